@@ -67,6 +67,8 @@ fn combined_model(limit: u64, size: usize) -> TerminationModel {
 /// iteration order among equal-cost via vertices, so only the first route is comparable)
 fn fingerprint_n(r: &PlainResult, n: usize) -> serde_json::Value {
     json!({
+        // (the number of trees is fixed by the algorithm: 1, or 2 for single-via)
+        "trees": r.trees.len(),
         "routes": r.routes.iter().take(n).map(|rt| rt.iter().map(|e| (e.edge_id.0, e.result_state.iter().map(|s| s.0).collect::<Vec<_>>(), e.access_cost.as_f64(), e.traversal_cost.as_f64())).collect::<Vec<_>>()).collect::<Vec<_>>(),
     })
 }
@@ -211,18 +213,23 @@ impl Prop for C10 {
         ];
         (crate::props::c03::c03_strategy(max_n, algs), kind, proptest::bool::weighted(0.8))
             .prop_map(|(mut search, kind, with_dest)| {
-                search.edge_oriented = false;
-                let n = search.spec.net.n();
-                if search.o >= n {
-                    search.o = 0;
-                }
-                if let Some(d) = search.d {
-                    if d >= n || d == search.o {
-                        search.d = Some((search.o + 1) % n);
+                // a third of the generated edge-oriented queries stay edge-oriented (judged by the
+                // limited-versus-unlimited relation only); the others become vertex-oriented
+                let keep_edge = search.edge_oriented && search.d.is_some() && !search.alg.is_yens() && search.o % 3 == 0;
+                if !keep_edge {
+                    search.edge_oriented = false;
+                    let n = search.spec.net.n();
+                    if search.o >= n {
+                        search.o = 0;
                     }
-                }
-                if !with_dest && !search.alg.is_ksp() {
-                    search.d = None;
+                    if let Some(d) = search.d {
+                        if d >= n || d == search.o {
+                            search.d = Some((search.o + 1) % n);
+                        }
+                    }
+                    if !with_dest && !search.alg.is_ksp() {
+                        search.d = None;
+                    }
                 }
                 // exact size replay needs history-independent costs
                 if matches!(kind, LimitKind::SolutionSize | LimitKind::Combined { .. }) {
@@ -277,7 +284,9 @@ impl Prop for C10 {
         // for a failed unlimited search the true iteration count is unknown (invisible expansions):
         // use a generous upper bound for 'the limit was not reached'
         let needed_ub = if unlimited.is_ok() { needed } else { 4 * sc.spec.net.n() as u64 + 4 };
-        let plain = !sc.alg.is_ksp();
+        // expansion counts and tree sizes are only modelled for plain vertex-oriented searches
+        let plain = !sc.alg.is_ksp() && !sc.edge_oriented;
+        o.label_if(sc.edge_oriented, "edge-oriented");
         let identical = |r: &Result<PlainResult, ErrKind>| -> bool {
             match (r, &unlimited) {
                 (Ok(a), Ok(_)) => Some(fingerprint_n(a, cmp_routes)) == fp_u,
